@@ -46,6 +46,7 @@ type inlCallee struct {
 	file   *ast.File
 	pure   bool      // computes only (eligible for hoisting out of an operand position)
 	defEnd token.Pos // bound function literal: end of the defining assignment
+	dyn    bool      // may also be reached by dynamic dispatch: inlined at static call sites, never dropped as a function
 }
 
 var inlineCounter int
@@ -233,6 +234,7 @@ func (ns *normState) unknownCallees() map[types.Object]*inlCallee {
 				if forwardTo[types.Object(fn)] {
 					continue
 				}
+				dynMeth := false
 				if sig.Recv() != nil && ifaceMeth[fn.Name()] {
 					// possibly reached by dynamic dispatch — only if the receiver's type implements a module interface
 					// that declares a method of this name
@@ -266,11 +268,9 @@ func (ns *normState) unknownCallees() map[types.Object]*inlCallee {
 							}
 						}
 					}
-					if dyn {
-						continue
-					}
+					dynMeth = dyn
 				}
-				c := &inlCallee{obj: fn, sig: sig, decl: fd, pk: pk, file: file}
+				c := &inlCallee{obj: fn, sig: sig, decl: fd, pk: pk, file: file, dyn: dynMeth}
 				if !ns.bodyInlinable(c) {
 					continue
 				}
@@ -1179,6 +1179,7 @@ func (ns *normState) inlineInBlock(pk *packages.Package, file *ast.File, body *a
 		return false
 	}
 	keepUsed := ns.keepUsed
+	noted := map[string]bool{}
 	record := func(s *inlSite, st ast.Stmt, text string, need map[string]string) {
 		if st != nil {
 			es.add(ns.fset, st.Pos(), st.End(), text)
@@ -1186,10 +1187,15 @@ func (ns *normState) inlineInBlock(pk *packages.Package, file *ast.File, body *a
 		}
 		sig := s.callee.sig
 		key := pkgShort[s.callee.pk.PkgPath] + "|" + recvStr(sig) + "|" + s.callee.obj.Name()
-		if !inlined[key] {
+		if !inlined[key] && !noted[key] {
 			ns.notes = append(ns.notes, fmt.Sprintf("calls of the private helper %s.%s%s (not part of the canonical tree) are inlined into their callers", pkgShort[s.callee.pk.PkgPath], recvPrefix(recvStr(sig)), s.callee.obj.Name()))
 		}
-		inlined[key] = true
+		if !s.callee.dyn {
+			inlined[key] = true
+		} else {
+			inlined[key] = inlined[key] // noted, but the method stays a function of its own
+			noted[key] = true
+		}
 		if s.callee.defEnd.IsValid() && !keepUsed[s.callee.obj] {
 			// the variable may end up without uses
 			keepUsed[s.callee.obj] = true
